@@ -108,7 +108,11 @@ def find_message(api, full_name):
 
 
 def all_methods(api):
+    """methods of the target files (a dependency-only file's services get no client)"""
+    targets = api.get("file_to_generate")
     for f in api["files"]:
+        if targets and f["name"] not in targets:
+            continue
         for s in f.get("services", []):
             for m in s.get("methods", []):
                 yield f, s, m
